@@ -47,11 +47,25 @@ def run(report, db, tier):
            "(C16's teardown rule)",
            lambda rid, c: c.startswith('teardown:'),
            lambda sub: c16.r5(sub, db, cg, M, S))
+    borrow(report, 'R14.8', "a handler can connect again: the activity "
+           "check of connect()/status() is the thread-slot condition the "
+           "dispatch has already made false by marking the thread "
+           "interrupted (C16's activity rules)",
+           lambda rid, c: rid in ('R16.1', 'R16.3'),
+           lambda sub: (c16.r1(sub, db, cg, M, _s1(db, cg, M)),
+                        c16.r3(sub, db, cg, M)))
     borrow(report, 'R14.5r', "'unless a handler has already started a new "
            "one': the flag test and the close are one critical section, so "
            "a connection begun meanwhile is not the one closed (C16's rule)",
            lambda rid, c: c.startswith('dispatch:'),
            lambda sub: c16.r8(sub, db, cg, M, S))
+
+
+def _s1(db, cg, M):
+    # as in c16.run: the activity check may live in _check_connection
+    chk = db.own_method(M.conn, '_check_connection')
+    return pathsum.PathSum(db, cg, inline=[chk] if chk is not None else [],
+                           inline_pred=pathsum.known_unit_pred())
 
 
 def sy(n):
